@@ -22,11 +22,12 @@ function judge(c, resps) {
   const bad = (x) => x.panic || x.died || x.hang || !x.eval_js;
   if (bad(r)) return { skip: true };
   const viol = [];
-  const alones = c.items.map((it, i) => (bad(resps[i + 1]) ? null : H.observe(resps[i + 1].eval_js, 1)));
+  const alones = c.items.map((it, i) => (bad(resps[i + 1]) ? null : H.observe(resps[i + 1].eval_js, 1, undefined, !!c.o2)));
   // a statement that cannot even be loaded on its own (C06's business: e.g. a generated const read in its
   // temporal dead zone) stops every module it is concatenated to; that is not a dependence of lowerings
   if (alones.some((a) => a && a.load)) return { skip: true };
-  const composed = H.observe(r.eval_js, c.items.length);
+  // under the optimizing option vector the update hints are part of what the expression evaluates to
+  const composed = H.observe(r.eval_js, c.items.length, undefined, !!c.o2);
   const obsAll = [];
   c.items.forEach((it, i) => {
     const alone = alones[i];
